@@ -54,7 +54,7 @@ def run(chk, repo, tier):
     chk.rule("C03.R4", "n >= 1 gate dominates the pairing loop / key aggregation; every key validated; basic suite: distinct-messages gate", 8)
     chk.rule("C03.R5", "tested product is Π e(H(m_i), PK_i) · e(sig, -G1) with the second factor exactly once; honest aggregate ⇒ exponent 0", 4)
     chk.rule("C03.R6", "the pairing product is accumulated in fresh objects: no in-place operator on field classes, no store to shared "
-                       "state (C20's obligations re-stated) — otherwise one verification leaks into the next", 50)
+                       "state (C20's obligations re-stated) — otherwise one verification leaks into the next", 10)
     chk.not_decided += ["'accepts exactly the sum' (needs bilinearity/non-degeneracy, C05)",
                         "order/grouping independence needs associativity of the group law (C07, not decided there)"]
     chk.depends_on += ["C05", "C07", "C04"]
@@ -63,7 +63,10 @@ def run(chk, repo, tier):
     sub = SubCheck()
     C20.run(sub, repo, tier)
     for rule, construct, key, ok, detail, where in sub.obs:
-        chk.ob("C03.R6", construct, f"purity [{rule}] {key}", ok, detail, where)
+        relevant = construct.startswith("py_ecc.fields") or "fields/" in str(where) or \
+            any(n in construct for n in ("Aggregate", "_CoreAggregateVerify", "_AggregatePKs", "pairing", "miller_loop"))
+        if relevant:
+            chk.ob("C03.R6", construct, f"purity [{rule}] {key}", ok, detail, where)
     M = Model(repo, "P")
     it0 = Interp(M.world)
     G1c = hp(it0.eval_global(repo.module(CS), "G1"))
